@@ -33,3 +33,8 @@ size_t strlcpy(char *dst, const char *src, size_t size)
 	return res;
 }
 #endif
+
+#ifdef DISPATCH_VERIF
+DISPATCH_EXPORT void (*volatile _dispatch_verif_atomic_hook)(const char *file, int line);
+void (*volatile _dispatch_verif_atomic_hook)(const char *file, int line) = 0;
+#endif
